@@ -1,5 +1,6 @@
 """C07 -- extension additions keep old and new versions interoperable (DESIGN.md section 4 C07)."""
 import ast
+import re
 
 from ..model import AnalysisError, Model, walk_no_nested, norm_stmt, names_in
 from .. import flow, protocol, sem
@@ -244,6 +245,34 @@ def check(ctx):
         if not ok:
             ctx.violation('C07.R2', m.rel, f, '%s::MembersType.decode_additions' % m.rel,
                           'in the branch for additions unknown to this version (i >= len(self.additions)) the decoder must skip exactly 8 * the length determinant read for that addition', stmt='skip by own length')
+
+    # ---- R1 (compile time): the base Compiler.compile_members reports `extensible` once a "..." was seen.  The flag it returns may
+    #      only ever be *set* when the marker is met: toggling it (as the binary codecs do for their in/out-of-additions state) makes
+    #      `T ::= CHOICE { a .., ..., b .., ... }` non-extensible for jer/xer and the constraints checker.
+    basef = model.func('asn1tools/codecs/compiler.py', 'Compiler.compile_members')
+    bps = sem.paths(basef)
+    if bps is None:
+        ctx.instance('C07.R1', 'base compile_members extensibility flag', 'undecided', 'too many paths', nontrivial=False, node=basef, file='asn1tools/codecs/compiler.py')
+    else:
+        ok = None
+        for p in sem.with_loop_bodies(bps):
+            if not any('EXTENSION_MARKER' in c_[0] and ' == ' in c_[0] and c_[1] for c_ in p.conds):
+                continue
+            for name, val in p.env.items():
+                if not isinstance(val, ast.AST):
+                    continue
+                t_ = sem.ctext(val)
+                if isinstance(val, ast.Constant) and val.value is True:
+                    ok = True if ok is None else ok
+                elif re.match(r'^not \(?%s@\d+\)?$' % re.escape(name), t_):
+                    ok = False
+        # the flag that is returned must be one that is set there
+        ctx.instance('C07.R1', 'base Compiler.compile_members: the extensibility flag is set (not toggled) at "..."', 'ok' if ok else ('undecided' if ok is None else 'VIOLATION'),
+                     nontrivial=ok is not None, node=basef, file='asn1tools/codecs/compiler.py')
+        if ok is False:
+            ctx.violation('C07.R1', 'asn1tools/codecs/compiler.py', basef, Model.qual(basef),
+                          'the flag returned as "has extension marker" is toggled at every "...": a type whose additions are closed by a second marker is compiled as not extensible, and '
+                          'its decoder rejects the alternatives / items a newer version added', stmt='extensibility flag toggled')
 
     # ---- R3
     n3 = 0
